@@ -223,6 +223,19 @@ def run_item(item):
         reform("identical", "deepcopy(params)", copy.deepcopy(params), functions, set())
         reform("identical", "copy of all functions",
                params, {k: (identical_copy(f) if inspect.isfunction(f) else f) for k, f in functions.items()}, set())
+    # (a2) a caller replaces functions in place in the dict it was handed, then sets up the date again
+    if item["chunk"] == 0:
+        from _gettsim.policy_environment import set_up_policy_environment as _setup
+
+        p_x, f_x = _setup(d)
+        victims = [t for t in nodes if t in f_x and inspect.isfunction(f_x[t])][:: max(1, len(nodes) // 12)]
+        for t in victims:
+            f_x[t] = modified(f_x[t])
+        for k_ in list(p_x):
+            if isinstance(p_x[k_], dict):
+                p_x[k_]["__edited__"] = 1
+        p_y, f_y = _setup(d)
+        reform("identical", "fresh set-up after in-place edits of an earlier environment", p_y, f_y, set())
     # (b) parameter groups
     groups = sorted(params)
     my_groups = [g for i, g in enumerate(groups) if i % item["chunks"] == item["chunk"]]
